@@ -1525,11 +1525,15 @@ where
                     opening.log_arity
                 )));
             }
-            let expected_coeffs = ((1usize << expected_log_arity) - 1) * ef_dim;
-            if opening.sibling_coefficients.len() != expected_coeffs {
+            // `log_arity` is prover-supplied: no unchecked shift / multiplication.
+            let expected_coeffs = u32::try_from(expected_log_arity)
+                .ok()
+                .and_then(|log_arity| 1usize.checked_shl(log_arity))
+                .and_then(|arity| (arity - 1).checked_mul(ef_dim));
+            if expected_coeffs != Some(opening.sibling_coefficients.len()) {
                 return Err(VerificationError::InvalidProofShape(format!(
                     "query {q} phase {phase}: sibling coefficient count must be \
-                     (2^log_arity - 1) * EF::DIMENSION = {expected_coeffs}, got {}",
+                     (2^log_arity - 1) * EF::DIMENSION with log_arity = {expected_log_arity}, got {}",
                     opening.sibling_coefficients.len()
                 )));
             }
